@@ -289,7 +289,9 @@ class Sym:
         return default
 
     def set(self, k: str, v: str) -> "Sym":
-        return Sym(tuple((n, x) for n, x in self.env if n != k) + ((k, v),), self.conds, self.events)
+        # rebinding a name forgets what was recorded about its attributes
+        drop = (k + ".") if "." not in k else None
+        return Sym(tuple((n, x) for n, x in self.env if n != k and not (drop and n.startswith(drop))) + ((k, v),), self.conds, self.events)
 
     def event(self, *e) -> "Sym":
         return Sym(self.env, self.conds, self.events + (tuple(e),))
@@ -322,6 +324,12 @@ class _SymSub(ast.NodeTransformer):
         # the value of `(x := e)` is e
         return self.visit(n.value)
 
+    def visit_Call(self, n):
+        # typing.cast(T, e) is e
+        if ast.unparse(n.func) in ("cast", "typing.cast", "t.cast") and len(n.args) == 2 and not n.keywords:
+            return self.visit(n.args[1])
+        return self.generic_visit(n)
+
     def visit_Name(self, n):
         if isinstance(n.ctx, ast.Load) and n.id not in self.bound:
             v = self.st.get(n.id)
@@ -333,6 +341,10 @@ class _SymSub(ast.NodeTransformer):
         # attributes of self are state, not staging: they are never substituted (a read after a store means the new value)
         if isinstance(n.value, ast.Name) and n.value.id == "self":
             return n
+        if isinstance(n.ctx, ast.Load) and isinstance(n.value, ast.Name) and n.value.id not in self.bound:
+            v = self.st.get(f"{n.value.id}.{n.attr}")
+            if v is not None:
+                return ast.parse(v, mode="eval").body
         return self.generic_visit(n)
 
 
@@ -408,9 +420,22 @@ class SymInterp(PathInterp):
                 st = st.set(n.target.id, self.text(n.value, st))
         return st
 
-    def assign(self, target: ast.AST, value_text: str, st: Sym, value_node: ast.AST | None = None) -> Sym:
+    def assign(self, target: ast.AST, value_text, st: Sym, value_node: ast.AST | None = None) -> Sym:
+        if isinstance(value_text, list):
+            # structured item of a loop: destructure along the target, else keep it as a tuple
+            if isinstance(target, (ast.Tuple, ast.List)) and len(target.elts) == len(value_text):
+                for t, v in zip(target.elts, value_text):
+                    st = self.assign(t, v, st)
+                return st
+            value_text = "(" + ", ".join(self._flat(v) for v in value_text) + ")"
         if isinstance(target, ast.Name):
+            if value_node is not None and isinstance(value_node, ast.Call) and isinstance(value_node.func, ast.Attribute) and value_node.func.attr in ("copy", "deepcopy") \
+                    and isinstance(value_node.func.value, ast.Name) and value_node.func.value.id == target.id and not value_node.args:
+                return st.event("copy", target.id)  # `x = x.copy()`: same content, the binding is kept
             return st.set(target.id, value_text)
+        if isinstance(target, ast.Attribute) and isinstance(target.value, ast.Name) and target.value.id != "self":
+            k = f"{target.value.id}.{target.attr}"
+            return st.set(k, value_text).event("store", k, value_text)
         if isinstance(target, ast.Attribute) and isinstance(target.value, ast.Name) and target.value.id == "self":
             k = f"self.{target.attr}"
             return st.set(k, value_text).event("set", k, value_text)
@@ -425,6 +450,28 @@ class SymInterp(PathInterp):
             return st
         # subscript / foreign attribute store: an event, no binding
         return st.event("store", self.text(target, st), value_text)
+
+    def _flat(self, v) -> str:
+        return v if isinstance(v, str) else "(" + ", ".join(self._flat(x) for x in v) + ")"
+
+    def item(self, it: ast.AST, i: int, st: Sym):
+        """The i-th item of an iteration source: a text, or a list of component texts for zip / iterrows / enumerate."""
+        if isinstance(it, ast.Call) and ast.unparse(it.func) == "zip":
+            return [self.item(a, i, st) for a in it.args]
+        if isinstance(it, ast.Call) and ast.unparse(it.func) == "enumerate" and len(it.args) == 1:
+            return [str(i), self.item(it.args[0], i, st)]
+        if isinstance(it, ast.Call) and isinstance(it.func, ast.Attribute) and it.func.attr == "iterrows" and not it.args:
+            base = it.func.value
+            idx = self.text(ast.Attribute(value=base, attr="index", ctx=ast.Load()), st)
+            return [f"ITEM({i}, {idx})", f"ROW({i}, {self.text(base, st)})"]
+        if isinstance(it, ast.Call) and isinstance(it.func, ast.Attribute) and it.func.attr == "items" and not it.args:
+            base = self.text(it.func.value, st)
+            return [f"KEY({i}, {base})", f"VALUE({i}, {base})"]
+        if isinstance(it, (ast.GeneratorExp, ast.ListComp)) and len(it.generators) == 1 and not it.generators[0].ifs:
+            g = it.generators[0]
+            inner = self.assign(g.target, self.item(g.iter, i, st), st)
+            return self.text(it.elt, inner)
+        return f"ITEM({i}, {self.text(it, st)})"
 
     def simple(self, stmt, st: Sym):
         if isinstance(stmt, ast.Assign):
@@ -477,15 +524,7 @@ class SymInterp(PathInterp):
 
     def bind_loop(self, node, st: Sym, i: int):
         if isinstance(node, ast.For):
-            it = node.iter
-            # iterating `(f(x) for x in xs)` binds the target to f(ITEM(i, xs))
-            if isinstance(it, (ast.GeneratorExp, ast.ListComp)) and len(it.generators) == 1 and not it.generators[0].ifs \
-                    and isinstance(it.generators[0].target, ast.Name):
-                g = it.generators[0]
-                inner = st.set(g.target.id, f"ITEM({i}, {self.text(g.iter, st)})")
-                st = self.assign(node.target, self.text(it.elt, inner), st)
-            else:
-                st = self.assign(node.target, f"ITEM({i}, {self.text(it, st)})", st)
+            st = self.assign(node.target, self.item(node.iter, i, st), st)
         return st
 
 
